@@ -242,11 +242,14 @@ package boltz
 // TypedBucket primitives used by the link-count and list-entry operations (C05, C07)
 // ---------------------------------------------------------------------------
 
+// prepend(t, v): the byte string consisting of the tag byte t followed by v (theory of byte strings: assumed)
 //@ spec prepend(ft Int, v Str) Str
+//@ axiom prepend_ext: (forall ((s Str) (t Int) (v Str)) (! (=> (and (= (str_len s) (+ (str_len v) 1)) (= (str_at s 0) t) (= (str_sub s 1 (str_len s)) v)) (= s (prepend t v))) :pattern ((prepend t v) (str_len s))))
 //@ func PrependFieldType
-//@   trusted byte-level encoding (one tag byte followed by the value) is specified under C13
+//@   props C13
+//@   requires 0 <= fieldType && fieldType <= 255
 //@   pure
-//@   ensures result != nil && str(result) == prepend(fieldType, str(value))
+//@   ensures[tag-then-value] result != nil && str(result) == prepend(fieldType, str(value))
 //@ func (*TypedBucket).IsKeyPresent
 //@   trusted reads through a bbolt cursor seek
 //@   pure
